@@ -23,5 +23,19 @@ int main(int argc, char **argv) {
             catch (std::runtime_error &) { comp = -1; }
             printf("%.17g %.17g %.17g %.17g %d %d\n", p0.x, p0.y, p1.x, p1.y, card, comp);
         }
+    // the direction predicates of ortho.h:  PRED d isVertical isHorizontal isIncreasing isDecreasing [card versions, d < 4, else -1 x4]
+    for (int d = 0; d < 8; ++d) {
+        dialect::CompassDir c = (dialect::CompassDir) d;
+        printf("PRED %d %d %d %d %d", d, (int) dialect::Compass::isVertical(c), (int) dialect::Compass::isHorizontal(c),
+               (int) dialect::Compass::isIncreasing(c), (int) dialect::Compass::isDecreasing(c));
+        if (d < 4) {
+            dialect::CardinalDir k = (dialect::CardinalDir) d;
+            printf(" %d %d %d %d\n", (int) dialect::Compass::isVerticalCard(k), (int) dialect::Compass::isHorizontalCard(k),
+                   (int) dialect::Compass::isIncreasingCard(k), (int) dialect::Compass::isDecreasingCard(k));
+        } else printf(" -1 -1 -1 -1\n");
+    }
+    for (int a = 0; a < 4; ++a) for (int b = 0; b < 4; ++b)
+        printf("PAIR %d %d %d %d\n", a, b, (int) dialect::Compass::sameDimension((dialect::CardinalDir) a, (dialect::CardinalDir) b),
+               (int) dialect::Compass::arePerpendicular((dialect::CardinalDir) a, (dialect::CardinalDir) b));
     return 0;
 }
